@@ -93,6 +93,12 @@ impl Scenario for StakingScenario {
     }
     fn on_state(&self, s: &Sim) -> StateObs {
         let mut o = StateObs { violations: state_monitors(&self.props, s), tags: vec![], probes: 0 };
+        // violations seen while the scripted prefix of the seed was executed
+        for (p, k, d) in &s.g.seed_viol {
+            if self.props.contains(&p.as_str()) {
+                o.violations.push(viol(p, k, d.clone()));
+            }
+        }
         if let Some(p) = &self.probe {
             let r = p(s);
             o.violations.extend(r.violations);
